@@ -60,6 +60,11 @@ const OPS = {
   inter: { arity: 2, only: ['objLit', 'iface', 'partial', 'record'], src: (s) => `${s[0]} & ${s[1]}`, ctors: (c) => c[0].concat(c[1]), samples: (x) => [{ x: 1, y: 's', a: 1 }] },
   alias: { arity: 1, decl: (n, s) => `type ${n} = ${s[0]};`, ref: true, ctors: (c) => c[0], samples: (x) => x[0] },
   alias2: { arity: 1, decl: (n, s) => `type ${n}x = ${s[0]};\ntype ${n} = ${n}x;`, ref: true, ctors: (c) => c[0], samples: (x) => x[0] },
+  // a type of this module that is named like a global class is still this module's type
+  aliasNamedError: { arity: 1, decl: (n, s) => `type Error = ${s[0]};`, src: () => 'Error', ctors: (c) => c[0], samples: (x) => x[0], once: 'Error' },
+  aliasNamedDate: { arity: 1, decl: (n, s) => `type Date = ${s[0]} | null;`, src: () => 'Date', ctors: (c) => c[0].concat(['null']), samples: (x) => x[0].concat([null]), once: 'Date' },
+  ifaceNamedMap: { arity: 1, decl: (n, s) => `interface Map { k: ${s[0]} }`, src: () => "Map['k']", ctors: (c) => c[0], samples: (x) => x[0], once: 'Map' },
+  aliasNamedPromise: { arity: 1, decl: (n, s) => `type Promise = { p: ${s[0]} };`, src: () => "Promise['p']", ctors: (c) => c[0], samples: (x) => x[0], once: 'Promise' },
   paren: { arity: 1, src: (s) => `(${s[0]})`, ctors: (c) => c[0], samples: (x) => x[0] },
   nonNull: { arity: 1, src: (s) => `NonNullable<${s[0]}>`, ctors: (c) => c[0].filter((k) => k !== 'null'), samples: (x) => x[0].filter((v) => v !== null) },
   nullFirst3: { arity: 2, src: (s) => `null | ${s[0]} | ${s[1]}`, ctors: (c) => ['null'].concat(c[0], c[1]), samples: (x) => [null].concat(x[0], x[1]) },
@@ -100,6 +105,12 @@ function build(term, st) {
   const src = op.ref ? n : op.src(srcs, n);
   return { src, ctors: op.ctors(parts.map((p) => p.ctors)), samples: op.samples(parts.map((p) => p.samples)), loose: !!op.loose || parts.some((p) => p.loose) };
 }
+// a module that declares its own `Date` / `Error` / … cannot also mean the global of that name
+function validTerm(t) {
+  const once = [], atoms = [];
+  (function walk(u) { if (u.a) { atoms.push(u.a); return; } if (OPS[u.op].once) once.push(OPS[u.op].once); u.args.forEach(walk); })(t);
+  return new Set(once).size === once.length && !once.some((n) => atoms.includes(n));
+}
 function termKey(t) { return t.a ? t.a : `${t.op}(${t.args.map(termKey).join(',')})`; }
 
 function render(c) {
@@ -132,6 +143,9 @@ function renderTwice(c) {
   // inhabitants of both declarations (none when two different concrete types meet)
   const samples = any(c.x) ? b.samples : any(c.y) || c.x === c.y ? a.samples : [];
   let src;
+  // a property and a method of the same name: the value may be either
+  if (c.form === 'unionMethod') return { src: `${pre}export const C = defineComponent((props: { ${m1}; z: number } | { p${c.opt2 ? '?' : ''}(v: number): string; z: number }) => () => null);\n`, samples: a.samples.concat([() => 's']) };
+  if (c.form === 'interMethodFirst') return { src: `${pre}interface DM { p(v: number): string }\ninterface DM { ${m2} }\nexport const C = defineComponent((props: DM) => () => null);\n`, samples: b.samples.concat([() => 's']).filter((v) => !(c.y === 'any' || c.y === 'unknown') || true) };
   if (c.form === 'inter') src = `${pre}export const C = defineComponent((props: { ${m1} } & { ${m2} }) => () => null);\n`;
   else if (c.form === 'merge') src = `${pre}interface DP { ${m1} }\ninterface DP { ${m2} }\nexport const C = defineComponent((props: DP) => () => null);\n`;
   else src = `${pre}interface DB { ${m1} }\ninterface DP extends DB { ${m2} }\nexport const C = defineComponent((props: DP) => () => null);\n`;
@@ -234,24 +248,25 @@ function spaces(tier) {
   const thorough = true; // cheap: the quick tier explores the former thorough space
   const atoms = ATOM_KEYS.map((a) => ({ a }));
   const core = CORE_ATOMS.map((a) => ({ a }));
-  const okArgs = (op, args) => !OPS[op].only || args.every((t) => t.a && OPS[op].only.includes(t.a));
+  const usesName = (t, nm) => (t.a ? t.a === nm : (OPS[t.op].once === nm || t.args.some((a) => usesName(a, nm))));
+  const okArgs = (op, args) => (!OPS[op].only || args.every((t) => t.a && OPS[op].only.includes(t.a))) && (!OPS[op].once || !args.some((t) => usesName(t, OPS[op].once)));
   function* depth1(pool, pool2) {
     for (const op of UNARY) for (const x of pool) if (okArgs(op, [x])) yield { op, args: [x] };
     for (const op of BINARY) for (const x of pool) for (const y of pool2) if (okArgs(op, [x, y])) yield { op, args: [x, y] };
   }
   return [
     { name: 'S:same-named-aliases-in-two-scopes', bounds: { note: 'module-level `type Value = X` and function-local `type Value = Y`, one component each, both orders', atoms: 'all × core' }, *gen() { for (const scope of SCOPES) for (const x of (scope === 'fnDecl' ? ATOM_KEYS : CORE_ATOMS)) for (const y of CORE_ATOMS) for (const innerFirst of [false, true]) if (x !== y && x !== 'bigLit' && y !== 'bigLit') yield { sp: 'S', x, y, innerFirst, scope }; } },
-    { name: 'D:prop-declared-twice', bounds: { forms: ['intersection', 'merged interface', 'extends'], atoms: 'core ∪ {unknown} × core ∪ {unknown}', note: 'one prop name declared by two members; only the user-visible clause is judged: values that inhabit both declarations must be accepted (and the emitted module must load)' }, *gen() { const pool = CORE_ATOMS.concat(['unknown']).filter((a) => a !== 'bigLit'); for (const form of ['inter', 'merge', 'ext']) for (const x of pool) for (const y of pool) for (const opt2 of [false, true]) yield { sp: 'D', form, x, y, opt2 }; } },
+    { name: 'D:prop-declared-twice', bounds: { forms: ['intersection', 'merged interface', 'extends'], atoms: 'core ∪ {unknown} × core ∪ {unknown}', note: 'one prop name declared by two members; only the user-visible clause is judged: values that inhabit both declarations must be accepted (and the emitted module must load)' }, *gen() { const pool = CORE_ATOMS.concat(['unknown']).filter((a) => a !== 'bigLit'); for (const form of ['inter', 'merge', 'ext', 'unionMethod', 'interMethodFirst']) for (const x of pool) for (const y of pool) for (const opt2 of [false, true]) yield { sp: 'D', form, x, y, opt2 }; } },
     { name: 'M:shared-alias-used-twice', bounds: { atoms: 'core', probes: Object.keys(PROBES), orders: ['probe first', 'probe last'], second_component: [false, true], note: 'an alias chain `type T0 = X; type T1 = T0` used by prop p, next to another use of T1 that may not be resolvable (indexed access); the second use must not change what p gets' }, *gen() { for (const x of CORE_ATOMS) if (x !== 'bigLit') for (const probe of Object.keys(PROBES)) for (const first of [true, false]) for (const second of [false, true]) yield { sp: 'M', x, probe, first, second }; } },
     { name: 'R:atoms', bounds: { atoms: ATOM_KEYS }, *gen() { for (const t of atoms) yield { t }; } },
-    { name: 'R:depth-1', bounds: { unary: UNARY, binary: BINARY, atoms: 'all × all' }, *gen() { for (const t of depth1(atoms, atoms)) yield { t }; } },
+    { name: 'R:depth-1', bounds: { unary: UNARY, binary: BINARY, atoms: 'all × all' }, *gen() { for (const t of depth1(atoms, atoms)) if (validTerm(t)) yield { t }; } },
     {
       name: 'R:depth-2',
       bounds: { note: thorough ? 'every operator over depth-1 terms built from the core atoms, second operand from the core' : 'unary operators over depth-1 terms from the core atoms; binary with a core atom', core_atoms: CORE_ATOMS },
       *gen() {
         const d1 = [...depth1(core, core)];
-        for (const op of UNARY) for (const x of d1) if (okArgs(op, [x])) yield { t: { op, args: [x] } };
-        for (const op of (thorough ? BINARY : ['union', 'tupleElemN'])) for (const x of d1) for (const y of (thorough ? core : core.slice(0, 6))) if (okArgs(op, [x, y])) yield { t: { op, args: [x, y] } };
+        for (const op of UNARY) for (const x of d1) if (okArgs(op, [x]) && validTerm({ op, args: [x] })) yield { t: { op, args: [x] } };
+        for (const op of (thorough ? BINARY : ['union', 'tupleElemN'])) for (const x of d1) for (const y of (thorough ? core : core.slice(0, 6))) if (okArgs(op, [x, y]) && validTerm({ op, args: [x, y] })) yield { t: { op, args: [x, y] } };
       },
     },
     {
@@ -260,7 +275,7 @@ function spaces(tier) {
       *gen() {
         if (!deep) return;
         const d1 = [...depth1(core, core)];
-        for (const op of UNARY) for (const op2 of UNARY) for (const x of d1) if (okArgs(op2, [x])) { const t2 = { op: op2, args: [x] }; if (okArgs(op, [t2])) yield { t: { op, args: [t2] } }; }
+        for (const op of UNARY) for (const op2 of UNARY) for (const x of d1) if (okArgs(op2, [x])) { const t2 = { op: op2, args: [x] }; if (okArgs(op, [t2]) && validTerm({ op, args: [t2] })) yield { t: { op, args: [t2] } }; }
       },
     },
   ];
